@@ -97,10 +97,18 @@ Definition req_eqb (a b : req) : bool :=
   | _, _ => false
   end.
 
-(* the code variants: the pinned tree has both flags false *)
+(* the code variants (one flag per repair: the pinned tree has them all false), and the two facts of the environment the
+   code depends on *)
 Record cfg := mkcfg { c_dedupe_labels : bool;   (* label events test the gitlab-id lookup like every other event *)
                       c_list_error : bool;      (* a failing issue listing is relayed as an import error *)
-                      c_graphic : N -> bool }.  (* unicode.IsGraphic *)
+                      c_clean_title : bool;     (* the new title of a title-change note goes through CleanupOneLine *)
+                      c_clean_ident : bool;     (* name, e-mail and login of a user go through CleanupOneLine *)
+                      c_empty_text : bool;      (* a title without visible character becomes the placeholder; a label event
+                                                   that names no label is skipped *)
+                      c_next_page : bool;       (* listings stop when X-Next-Page is absent (not when X-Page >= X-Total-Pages) *)
+                      c_ghost : bool;           (* the events of a deleted user ("user": null, id 0) get a placeholder author *)
+                      c_graphic : N -> bool;    (* unicode.IsGraphic *)
+                      c_totals : bool }.        (* the server sends X-Total-Pages (GitLab does not above 10000 items) *)
 
 (* the state of one import run *)
 Record rs := mkrs { rs_idents : list N;        (* gitlab ids of the identities known locally *)
@@ -222,17 +230,23 @@ Definition page_of {A} (p : nat) (k : nat) (l : list A) : list A := firstn p (sk
 Definition npages {A} (p : nat) (l : list A) : nat := Nat.max 1 ((List.length l + p - 1) / p).
 
 (* fetch pages k, k+1, ... of l; the request of page j is mk j. A failing request ends the listing: (items, failed) *)
-Fixpoint fetch_pages {A} (fuel : nat) (mk : nat -> req) (p : nat) (l : list A) (k : nat) (s : rs) : rs * list A * bool :=
+(* was page k the last one? X-Page = k, X-Total-Pages = npages (0 when the header is not sent), X-Next-Page = k+1, absent
+   on the last page. Repaired: no next page. Pinned: resp.CurrentPage >= resp.TotalPages *)
+Definition last_page {A} (c : cfg) (p : nat) (l : list A) (k : nat) : bool :=
+  if c_next_page c then Nat.leb (npages p l) k
+  else Nat.leb (if c_totals c then npages p l else O) k.
+
+Fixpoint fetch_pages {A} (c : cfg) (fuel : nat) (mk : nat -> req) (p : nat) (l : list A) (k : nat) (s : rs) : rs * list A * bool :=
   match fuel with
   | O => (s, [], false)
   | S f =>
       let '(s1, ok) := send (mk k) s in
       if negb ok then (s1, [], true)
-      else if Nat.leb (npages p l) k then (s1, page_of p k l, false)
-      else let '(s2, rest, failed) := fetch_pages f mk p l (S k) s1 in (s2, page_of p k l ++ rest, failed)
+      else if last_page c p l k then (s1, page_of p k l, false)
+      else let '(s2, rest, failed) := fetch_pages c f mk p l (S k) s1 in (s2, page_of p k l ++ rest, failed)
   end.
-Definition fetch_all {A} (mk : nat -> req) (p : nat) (l : list A) (s : rs) : rs * list A * bool :=
-  fetch_pages (npages p l) mk p l 1 s.
+Definition fetch_all {A} (c : cfg) (mk : nat -> req) (p : nat) (l : list A) (s : rs) : rs * list A * bool :=
+  fetch_pages c (npages p l) mk p l 1 s.
 
 (* ------------------------------------------------------------------ import.go *)
 
@@ -240,13 +254,19 @@ Fixpoint find_user (us : list user) (uid : N) : option user :=
   match us with [] => None | u :: t => if u_id u =? uid then Some u else find_user t uid end.
 
 (* identity.version.Validate on what ensurePerson passes (the avatar url is empty in the simulated tracker) *)
+Definition user_text (c : cfg) (t : text) : text := if c_clean_ident c then cleanup1 t else t.
 Definition ident_valid (c : cfg) (u : user) : bool :=
-  negb (text_empty (c_graphic c) (u_name u) && text_empty (c_graphic c) (u_login u)) &&
-  safe1 (u_name u) && safe1 (u_login u) && safe1 (u_email u).
+  let name := user_text c (u_name u) in let login := user_text c (u_login u) in let email := user_text c (u_email u) in
+  negb (text_empty (c_graphic c) name && text_empty (c_graphic c) login) &&
+  safe1 name && safe1 login && safe1 email.
 
-(* ensurePerson: known locally, or fetched and created. false = error *)
+(* the author of a label or state event whose user was deleted: id 0, nobody to ask the API for *)
+Definition is_ghost (c : cfg) (uid : N) : bool := c_ghost c && (uid =? 0).
+
+(* ensurePerson: known locally, or (the deleted user) created without any request, or fetched and created. false = error *)
 Definition ensure_person (c : cfg) (us : list user) (uid : N) (s : rs) : rs * bool :=
   if memN uid (rs_idents s) then (s, true)
+  else if is_ghost c uid then (emit (RIdent uid) (add_ident uid s), true)
   else let '(s1, ok) := send (QUser uid) s in
        if negb ok then (s1, false)
        else match find_user us uid with
@@ -290,6 +310,20 @@ Fixpoint cur_title (ops : list op) (cur : text) : text :=
   end.
 
 Definition title_valid (c : cfg) (t : text) : bool := negb (text_empty (c_graphic c) t) && safe1 t.
+
+(* emptyTitlePlaceholder, for a title without any visible character *)
+Definition placeholder : text := lit "<empty string>".
+(* ensureIssue: the title of a new bug *)
+Definition issue_title (c : cfg) (iss : issue) : text :=
+  let t := cleanup1 (i_title iss) in
+  if c_empty_text c && text_empty (c_graphic c) t then placeholder else t.
+(* NoteEvent.Title of a title-change note, and what ensureIssueEvent makes of it (no title at all is left as it is:
+   the note was not the expected diff) *)
+Definition note_title (c : cfg) (t : text) : text :=
+  let t1 := if c_clean_title c then cleanup1 t else t in
+  if c_empty_text c && negb (text_eqb t1 []) && text_empty (c_graphic c) t1 then placeholder else t1.
+Definition new_title_c (c : cfg) (body : text) : option text :=
+  match new_title body with Some t => Some (note_title c t) | None => None end.
 Definition label_valid (c : cfg) (t : text) : bool := negb (text_empty (c_graphic c) t) && safe1 t.
 
 (* Validate of the operations *)
@@ -310,6 +344,9 @@ Inductive action := ANone | AError | AAppend (o : op) (r : option res).
 Definition note_body (e : event) : text := match e with ENote n => n_body n | _ => [] end.
 Definition note_updated (e : event) : N := match e with ENote n => n_updated n | _ => 0 end.
 Definition label_name (e : event) : text := match e with ELabel l => cleanup1 (l_name l) | _ => [] end.
+
+(* the label was deleted ("label": null gives an empty name) or its name has no visible character *)
+Definition no_label (c : cfg) (e : event) : bool := c_empty_text c && text_empty (c_graphic c) (label_name e).
 
 Definition decide (c : cfg) (iss : issue) (ops : list op) (e : event) : action :=
   let iid := i_iid iss in
@@ -342,12 +379,12 @@ Definition decide (c : cfg) (iss : issue) (ops : list op) (e : event) : action :
       end
   | KTitle =>
       if found then ANone
-      else match new_title (note_body e) with
+      else match new_title_c c (note_body e) with
            | None => AError
            | Some t => AAppend (mk (OTitle t (cur_title ops []))) (Some (RTitle iid))
            end
-  | KAddLabel => if c_dedupe_labels c && found then ANone else AAppend (mk (OLabel true (label_name e))) None
-  | KRemoveLabel => if c_dedupe_labels c && found then ANone else AAppend (mk (OLabel false (label_name e))) None
+  | KAddLabel => if c_dedupe_labels c && found then ANone else if no_label c e then ANone else AAppend (mk (OLabel true (label_name e))) None
+  | KRemoveLabel => if c_dedupe_labels c && found then ANone else if no_label c e then ANone else AAppend (mk (OLabel false (label_name e))) None
   | KIgnored => ANone
   | KUnknown => AError
   end.
@@ -405,15 +442,15 @@ Definition import_issue (c : cfg) (us : list user) (p : nat) (iss : issue) (s : 
         match found with
         | Some b => Some (b_ops b, s1)
         | None =>
-            let o := mkop (Some iid) (i_author iss) (i_created iss) (OCreate (cleanup1 (i_title iss)) (cleanup (i_desc iss))) in
+            let o := mkop (Some iid) (i_author iss) (i_created iss) (OCreate (issue_title c iss) (cleanup (i_desc iss))) in
             if op_valid c o then Some ([o], emit (RBug iid) (set_bugs (put_bug (mkbug iid [o]) (rs_bugs s1)) s1)) else None
         end in
     match created with
     | None => (emit RError s1, false)
     | Some (ops0, s2) =>
-        let '(s3, ns, fn) := fetch_all (QNotes iid) p (i_notes iss) s2 in
-        let '(s4, ls, fl) := fetch_all (QLabels iid) p (i_labels iss) s3 in
-        let '(s5, ss, fs) := fetch_all (QStates iid) p (i_states iss) s4 in
+        let '(s3, ns, fn) := fetch_all c (QNotes iid) p (i_notes iss) s2 in
+        let '(s4, ls, fl) := fetch_all c (QLabels iid) p (i_labels iss) s3 in
+        let '(s5, ss, fs) := fetch_all c (QStates iid) p (i_states iss) s4 in
         let evs := sorted_events (with_error (map ENote ns) fn) (with_error (map ELabel ls) fl) (with_error (map EState ss) fs) in
         let '(ops1, s6) := fold_left (ensure_event c us iss) evs (ops0, s5) in
         if Nat.eqb (List.length ops1) (List.length ops0) then (emit (RNothing iid) s6, true)
@@ -433,7 +470,7 @@ Definition listed (t : tracker) (since : option N) : list issue :=
 (* ImportAll: the issues of the pages that could be fetched; a failing page ends the listing.
    The listing goroutine is one page ahead of the importer, which the model ignores except through the request log. *)
 Definition import_all (c : cfg) (t : tracker) (p : nat) (since : option N) (s : rs) : rs * bool (* completed *) :=
-  let '(s1, l, failed) := fetch_all QIssues p (listed t since) s in
+  let '(s1, l, failed) := fetch_all c QIssues p (listed t since) s in
   let '(s2, go) := import_issues c (t_users t) p l s1 in
   if go && failed && c_list_error c then (emit RError s2, true) else (s2, go).
 
@@ -451,5 +488,5 @@ Definition run_round (c : cfg) (t : tracker) (p : nat) (full : bool) (now : N) (
   let stored := negb (has_error (rs_res s)) in
   mkout (rs_idents s) (rs_bugs s) (if stored then Some (now - 5) else cursor) (rs_res s) (rs_reqs s) stored completed.
 
-Definition fixed (graphic : N -> bool) : cfg := mkcfg true true graphic.
-Definition pinned (graphic : N -> bool) : cfg := mkcfg false false graphic.
+Definition fixed (graphic : N -> bool) (totals : bool) : cfg := mkcfg true true true true true true true graphic totals.
+Definition pinned (graphic : N -> bool) (totals : bool) : cfg := mkcfg false false false false false false false graphic totals.
